@@ -40,7 +40,7 @@ def build_sched():
 def run_group(i, group, maxexecs):
     out = f'{V}/build/mappar-{i}.json'
     spec = ';'.join(f'{l},{n},{b}' for l, n, b in group)
-    r = subprocess.run([f'{V}/bin/vps', 'mappar', '-out', out, '-cases', spec, '-maxexecs', str(maxexecs)], capture_output=True, text=True,
+    r = subprocess.run([f'{vlib.BIN}/vps', 'mappar', '-out', out, '-cases', spec, '-maxexecs', str(maxexecs)], capture_output=True, text=True,
                        env=vlib.GOENV, timeout=7200)
     if r.returncode not in (0, 1) or not os.path.exists(out):
         return None, r.stderr[-1500:]
@@ -69,7 +69,7 @@ def main(tier):
             sched = ','.join(str(x) for x in [c['Len'], c['N']] + (c.get('Schedule') or []))
             rep.fail(f"MapParallel len={c['Len']} workers={c['N']}: {c['Violation']}", ['part:a', f"len:{c['Len']}", f"n:{c['N']}"],
                      dict(part='a', len=c['Len'], workers=c['N'], bound=c['Bound'], violation=c['Violation'], blocked=c.get('Blocked'),
-                          schedule=c.get('Schedule'), replay=f"{V}/bin/vps mappar -replay {sched}"))
+                          schedule=c.get('Schedule'), replay=f"{vlib.BIN}/vps mappar -replay {sched}"))
     # parts (b)-(d): the whole analysis under the scheduler with map race probes, for every report-option subset
     subj = f'{V}/build/c20-subjects.jsonl'
     picks = PICKS[tier]
@@ -78,7 +78,7 @@ def main(tier):
 
     def rshard(i):
         out = f'{V}/build/c20-rep-{i}.jsonl'
-        r = subprocess.run([f'{V}/bin/vps', 'reports', '-in', subj, '-out', out, '-shard', f'{i}/{nsh}', '-bound', '1', '-maxexecs', str(REP_EXECS[tier])],
+        r = subprocess.run([f'{vlib.BIN}/vps', 'reports', '-in', subj, '-out', out, '-shard', f'{i}/{nsh}', '-bound', '1', '-maxexecs', str(REP_EXECS[tier])],
                            stdout=subprocess.DEVNULL, stderr=subprocess.PIPE, text=True, env=vlib.GOENV, timeout=14400)
         recs = [json.loads(l) for l in open(out)] if os.path.exists(out) else []
         return recs, r.returncode, r.stderr[-1500:]
@@ -100,7 +100,7 @@ def main(tier):
     execs += rexecs
     trans += rtrans
     states += rstates
-    rw = json.load(open(f'{V}/build/rewrite.json'))
+    rw = json.load(open(f"{V}/build/rewrite-{os.environ.get('VERIF_BINDIR', 'bin')}.json"))
     rep.cov = dict(report_option_runs=len(rrecs), report_executions=rexecs, report_runs_hitting_cap=rcapped,
                    map_write_probes=sum(v.get('MapWrites', 0) for v in rw.get('typed', {}).values()),states=max(states, 1), transitions=max(trans, 1), traces_validated_against_impl=execs,
                    evaluations=execs, distinct_nontrivial=sum(1 for c in results if c['Execs'] > 1),
